@@ -104,22 +104,18 @@ Proof.
   rewrite D1. unfold gkd. gs. match goal with |- _ = ?g0 <| g_dl := ?e1 |> => replace e1 with 0%Z by lia end. reflexivity.
 Qed.
 
-Lemma free_if_unref_ginv s g k r : GInv s g -> g_owe g = [] -> (k = g_dk g -> g_ph g = [] /\ g_dl g = 0%Z) ->
+Lemma free_if_unref_ginv s g k r : GInv s g -> g_owe g = [] -> g_ph g = [] -> (k = g_dk g -> g_dl g = 0%Z) ->
   GInv (if l_refc (getl s r) =? 0 then remove_mgr_if_unref (free_lock s r) k else s) g.
 Proof.
-  intros G Ho Hk. destruct (l_refc (getl s r) =? 0) eqn:E; auto. apply N.eqb_eq in E.
-  apply remove_mgr_ginv; auto.
+  intros G Ho Hp Hk. destruct (l_refc (getl s r) =? 0) eqn:E; auto. apply N.eqb_eq in E.
+  apply remove_mgr_ginv; [|intros Ek; split; auto].
   destruct (aget (store s) r) as [l|] eqn:Hr.
   - rewrite (getl_some _ _ _ Hr) in E.
     assert (Ht : l_timeouted l = true).
     { destruct (l_timeouted l) eqn:Et; auto. exfalso.
-      destruct (gi_rec _ _ G r l Hr) as [A1 A2 A3 A4 A5 A6 A7 A8 A9 A10 A11].
-      destruct (A6 eq_refl) as [_ [_ [_ Q]]]. rewrite E, Ho in A3. simpl in A3.
-      destruct (free_facts s g r l G Hr E) as [_ [_ [Z1 [_ [Z2 _]]]]]; [rewrite Ho; reflexivity|].
-      pose proof (gi_phle _ _ G r) as PL.
-      destruct (N.eq_dec (l_key l) (g_dk g)) as [Ek|Ek].
-      - rewrite <- Ek in Hk. destruct (Hk eq_refl) as [Hp _]. rewrite Hp in Z2. simpl in Z2. lia.
-      - destruct (free_facts s g r l G Hr E) as [_ [_ [_ [_ [_ Z3]]]]]; [rewrite Ho; reflexivity|]. rewrite (Z3 Ek) in Z2. lia. }
+      destruct (ro_live _ _ _ _ (gi_rec _ _ G r l Hr) Et) as [_ [_ [_ Q]]].
+      destruct (free_facts s g r l G Hr E) as [_ [_ [_ [_ [Z2 _]]]]]; [rewrite Ho; reflexivity|].
+      rewrite Hp in Z2. simpl in Z2. lia. }
     pose proof (free_lock_ginv s g r l G Hr E) as F. rewrite Ho in F. specialize (F eq_refl).
     unfold liveb in F. rewrite Ht in F. eapply ginv_geq; [exact F|]. destruct g; gs. rewrite Z.sub_0_r. reflexivity.
   - unfold free_lock. rewrite Hr. exact G.
@@ -163,5 +159,5 @@ Proof.
       (eapply ginv_geq; [apply (ginv_pend_drop _ _ r [] Gb); gs; auto; intros l0 H0 Hl0; rewrite Fr in H0; inversion H0; subst l0; discriminate|reflexivity]);
     pose proof (release_tail_ginv s2 xt xe k r l2 d Gc Fr Hkey Hd Hpos (l_cmd l) (Some c)) as GT;
     destruct (l_isaof (getl s2 r)); [destruct (push_unlock_aof s2 k r (l_cmd l) (Some c) false 0) as [s3 aev]|];
-    cbn [fst] in *; apply Hfin; apply free_if_unref_ginv; auto; intros _; split; reflexivity.
+    cbn [fst] in *; apply Hfin; apply free_if_unref_ginv; auto.
 Qed.
